@@ -12,7 +12,7 @@ CHECKS = {
         engine="RSX+PYX",
         category="model_checking",
         technique="bounded-exhaustive enumeration of byte strings / k-deviations of skeleton messages at every decoder entry point (Rust harness on the real crate) and end-to-end datagrams per configuration x pending operation",
-        text="Every byte string up to a length bound over full and reduced alphabets, every <=2-deviation and header tampering of ~90 well-formed skeleton messages, at all 29 decoder entry points (incl. OID rendering of decoded results), a grid of short relative-OID names after short absolute names, the privacy decrypt path, and end to end through the real sockets for each configuration and pending operation (deviations applied before sealing so that authentication passes) plus a slice through both public clients; verdict = no unwind, no non-Exception BaseException, no hang, no worker death.",
+        text="Every byte string up to a length bound over full and reduced alphabets, every <=2-deviation and header tampering of ~90 well-formed skeleton messages, at all 29 decoder entry points (incl. OID rendering of decoded results), a grid of short relative-OID names after short absolute names, the privacy decrypt path, and end to end through the real sockets for each configuration and pending operation (deviations applied before sealing so that authentication passes) plus a slice through both public clients; verdict = no unwind, no non-Exception BaseException, no hang, no worker death. Plus one-varbind replies of every datagram size up to the receive limit (sealed / wrong MAC / damaged) per configuration, and binary REALs with 8..17-octet mantissas.",
         note="bounds stated in evidence; memory safety of the two unsafe-bearing paths is covered by C17's shadow model (+Miri slice); longer strings are not claimed",
         ref="DESIGN.md s.3 C01",
     ),
@@ -20,7 +20,7 @@ CHECKS = {
         engine="PYX+RSX",
         category="model_checking",
         technique="exhaustive enumeration of a boundary-complete value model x position x length form, through the real clients against an independent BER encoder",
-        text="All 1-2 octet contents and boundary neighbourhoods of every integer type, string lengths across the length-form boundaries, OID arcs at every base-128 boundary, BOOLEAN/NULL/IpAddress corners, REAL special/decimal/binary forms, at first/middle/last position and in valid long-form lengths; Python object and OID key must equal what the encoding denotes.",
+        text="All 1-2 octet contents and boundary neighbourhoods of every integer type, string lengths across the length-form boundaries, OID arcs at every base-128 boundary, BOOLEAN/NULL/IpAddress corners, REAL special/decimal/binary forms, at first/middle/last position and in valid long-form lengths; Python object and OID key must equal what the encoding denotes. Plus RELATIVE-OID name chains, string contents that look like other encodings, and 9..18-octet REAL mantissas (lenient class).",
         note="reference encoder vlib/refber.py; float comparison exact below 2^53 mantissa, else 1 ulp",
         ref="DESIGN.md s.3 C02",
     ),
@@ -44,7 +44,7 @@ CHECKS = {
         engine="PYX",
         category="model_checking",
         technique="exhaustive enumeration of all MIBs over a small OID universe x bases x methods x caps x versions through both public iterators against an RFC 3416 reference agent",
-        text="Every subset MIB of a 10 (quick) / 15 (thorough) OID universe with multi-octet arcs and out-of-subtree neighbours x 10 bases x {getnext, getbulk(max_rep x cap), fetch} x {v1,v2c,v3} x {sync, async}: yields exactly the entries below the base, once, in order, then stops; request sequence checked.",
+        text="Every subset MIB of a 10 (quick) / 15 (thorough) OID universe with multi-octet arcs and out-of-subtree neighbours x 10 bases x {getnext, getbulk(max_rep x cap), fetch} x {v1,v2c,v3} x {sync, async}: yields exactly the entries below the base, once, in order, then stops; request sequence checked. Plus slices: subtree roots ending at every base-128 width boundary, names of 127/128 sub-identifiers and >=128 content octets, equal-length siblings of different arc widths, every max_repetitions 1..300 and the INTEGER width boundaries.",
         note="agent = vlib/refagent.py written from RFC 3416; larger universes not claimed",
         ref="DESIGN.md s.3 C05",
     ),
@@ -52,7 +52,7 @@ CHECKS = {
         engine="PYX",
         category="model_checking",
         technique="exhaustive enumeration of adversarial agent strategies with a bounded number of varbind-level deviations; transcript checked by an NFA simulation of an executable walk specification",
-        text="All agent strategies with <=D deviations (substitute/delete/insert over 7 OIDs x 5 values) within the first 5 requests, for getnext and getbulk through sync and async iterators; containment, strict monotonicity, follow-up request, termination.",
+        text="All agent strategies with <=D deviations (substitute/delete/insert over 7 OIDs x 5 values) within the first 5 requests, for getnext and getbulk through sync and async iterators; containment, strict monotonicity, follow-up request, termination. Plus two iterators advanced in every order of <=5 next() calls and abandoned, and the reply to the k-th request lost once with the same iterator asked again.",
         note="specification is permissive exactly where the property is silent (listed in evidence assumptions)",
         ref="DESIGN.md s.3 C06",
     ),
